@@ -87,3 +87,42 @@ CLAIMS["C08"] = {
     "technique": "static analysis: all-paths-return flow, return-tuple role agreement, dispatch-table exhaustiveness, "
                  "float-to-GF(2) rounding taint rule",
 }
+
+CLAIMS["C09"] = {
+    "text": "Narrow claim: decides structural necessary conditions only — the GL(2,2) name table of local_clifford_ops is "
+            "exhaustive, duplicate-free and self-consistent; name tokens are emitted rightmost-first; every gate tag that the "
+            "LC machinery can emit is handled by run_circuit; lc_check inverts non-self-inverse tags to their Clifford inverse "
+            "and reverses the list; Graph.local_complementation has exactly the toggle shape over neighbour pairs. Finite "
+            "tables are enumerated completely. Does not decide soundness/completeness of is_lc_equivalent (incl. the "
+            "pairwise-sum shortcut for large solution spaces), the R-matrix reduction, or local_comp_graph's matrix formula.",
+    "ref": "DESIGN.md §5.9",
+    "note": "Trusted: the table's own single-token rows as generators (repository convention: name = left-to-right product of "
+            "its row-vector symplectic matrices); is_lc_equivalent's linear algebra.",
+    "technique": "static analysis: literal-table constant folding + finite-group model, token-direction check, "
+                 "producer/consumer vocabulary inclusion, exact syntactic shape of the toggle loop",
+}
+
+CLAIMS["C10"] = {
+    "text": "Decides structural necessary conditions: the default lc_method is in solve()'s accepted set; every numpy "
+            "attribute used by relabel_module exists in the installed numpy; per LC graph exactly one circuit and one score "
+            "are appended on every path, results are assembled with one common index, the relabel map and the LC check use "
+            "this iteration's iso graph; emitted gate tags are handled by str_to_op and its name table pairs names with the "
+            "classes denoting the same Clifford. Does not decide that each circuit generates the relabelled target, LC "
+            "equivalence of the listed graph, or completeness of duplicate removal.",
+    "ref": "DESIGN.md §5.10",
+    "note": "Trusted: TimeReversedSolver (C02), lc_check (C09), iso_finder/orbit explorers (C16).",
+    "technique": "static analysis: default-in-accepted-domain check over a dispatch chain, installed-stub API existence, "
+                 "exactly-once path counting, vocabulary inclusion with a finite Clifford model",
+}
+
+CLAIMS["C16"] = {
+    "text": "Decides structural necessary conditions: provenance closure of every orbit explorer (each result element is the "
+            "input, its copy, or local_comp_graph of a closure element; greatest-fixpoint over all assignments), "
+            "automorph_check records only relabel(input, ·), de-duplicated via a set, input first and once; iso_finder's "
+            "returns are bounded by n_iso; numpy attributes exist in the installed numpy. Holds for all seeds/thresholds "
+            "because it is over all paths. Does not decide that relabel realises (p(u),p(v)), that get_relabel_map is an "
+            "isomorphism, or distinctness for explorers without de-duplication.",
+    "ref": "DESIGN.md §5.16",
+    "note": "Trusted: local_comp_graph implements local complementation; networkx GraphMatcher.",
+    "technique": "static analysis: provenance-closure dataflow (greatest fixpoint), return-bound check, installed-stub API existence",
+}
